@@ -124,10 +124,17 @@ func (e *Explorer) addPC(t *Term) {
 	e.pc = append(e.pc, t)
 }
 
-// check is the single place where solver verdicts are taken.
+// check is the single place where solver verdicts are taken. Verdict-only queries are sliced
+// (constraint independence) and cached; queries that need values use the full path condition.
 func check(extra []*Term, get []*Term) (string, []string) {
+	if len(get) == 0 && !NoSlicing {
+		return Z.CheckSliced(E.pc, extra), nil
+	}
 	return Z.Check(E.pc, extra, get)
 }
+
+// NoSlicing disables constraint-independence slicing (ZX_NOSLICE=1; for differential testing).
+var NoSlicing = os.Getenv("ZX_NOSLICE") != ""
 
 func (e *Explorer) decide(c *Term) bool {
 	if c.isConst {
